@@ -213,3 +213,171 @@ Example conv_example :
   /\ co_line h = mkBounds 950 (-250) 0 /\ co_line v = mkBounds 512 (-512) 0 /\ co_line u = mkBounds 512 (-512) 0
   /\ o_gbounds (co_out v) = o_gbounds (co_out h) /\ o_dir (co_out v) = 14 /\ co_hbdir v = 4 /\ co_hbdir u = 6.
 Proof. vm_compute. repeat split; reflexivity. Qed.
+
+(* ==== harfbuzz/fonts.go (Model/HbFont.v) =======================================================================
+   float32 values are counted in units of 2^-149 (v * 2^149 is the float32 holding the integer v); the face is a record
+   of what font.Face answers; hbfont = (faceUpem, XScale, YScale).  All statements are for every face, font, glyph. *)
+From TV Require Import Model.F32 Model.HbFont Model.HbPos Spec.HbFont Proofs.HbFont Proofs.HbPos Proofs.HbConv.
+
+(* emScalef(v, scale, upem) = v * scale / upem rounded to the nearest integer, halves away from zero (math.Round),
+   for every integer v, scale, upem inside Spec.scale_exact: 0 < upem < 2^24, |v| < 2^24, scale a binary32 value, and
+   |v * scale| < 2^22 (any upem)  or  upem a power of two and v * scale a binary32 value (|v| * px < 2^24 at scale 64 px).
+   Outside, the two binary32 roundings (product, quotient) can move the result: see em_scalef_range. *)
+Theorem em_scalef_exact : forall v s u, scale_exact v s u = true -> em_scalef (v * 2 ^ 149) s u = scale_spec v s u.
+Proof. exact em_scalef_exact_lemma. Qed.
+Print Assumptions em_scalef_exact.
+
+(* the range of the property text (|v| <= 32767 font units, scale = 64 * px for 1 <= px <= 4096, 16 <= upem <= 65535):
+   the result r is within 1/2 + |v*s/u| * (2^-23 + 2^-48) of v*s/u, and |r| <= 2^29 + 65: no int32 overflow (the
+   float -> int32 conversion of roundf is inside its defined range) *)
+Theorem em_scalef_range : forall v s u, in_range v s u = true ->
+  let r := em_scalef (v * 2 ^ 149) s u in
+  scale_err_ok v s u r = true /\ Z.abs r <= 2 ^ 29 + 65.
+Proof. exact em_scalef_range_lemma. Qed.
+Print Assumptions em_scalef_range.
+
+(* scaling is odd (every float32 v, every scale and upem, upem = 0 included), unless the result is the value the
+   float -> int32 conversion gives outside int32; so are emFscale and (after the fix of emScaleX/Y) emScale *)
+Theorem scaling_is_odd : forall v s u,
+  (em_scalef v s u <> - 2147483648 -> em_scalef (- v) s u = - em_scalef v s u)
+  /\ (em_scale v s u <> - 2147483648 -> em_scale (- v) s u = - em_scale v s u)
+  /\ (Z.abs v < 2 ^ 24 -> em_fscale (- v) s u = - em_fscale v s u).
+Proof.
+  intros v s u. split; [apply em_scalef_odd_lemma|]. split; [apply em_scale_odd_lemma|].
+  intros H. apply em_fscale_odd_lemma. apply small_repr_ok. exact H.
+Qed.
+Print Assumptions scaling_is_odd.
+
+(* monotone where exact.  PARTIAL: for values outside scale_exact, monotonicity of the two binary32 roundings across
+   binades is not proved (Proofs/HbFont.rnd_core_mono covers one binade). *)
+Theorem scaling_monotone_partial : forall v v' s u, 0 <= s -> v <= v' ->
+  scale_exact v s u = true -> scale_exact v' s u = true ->
+  em_scalef (v * 2 ^ 149) s u <= em_scalef (v' * 2 ^ 149) s u.
+Proof. exact em_scalef_mono_exact. Qed.
+Print Assumptions scaling_monotone_partial.
+
+(* "under the same scale": for the font Shape configures (NewFont, then XScale = YScale = s), X and Y scaling are the
+   same function, GlyphHAdvance / getGlyphVAdvance are emScalef(face advance, s, upem), and every field of
+   ExtentsForDirection (when the face has extents for the axis) is float32(emScalef(face value, s, upem)): the scaled
+   advance of v equals the scaled extent of v for every v *)
+Theorem same_scale_for_advances_and_extents : forall fc u s g,
+  let ft := set_scale (new_font u) s in
+  ft_upem ft = u /\ ft_xscale ft = s /\ ft_yscale ft = s
+  /\ (forall v, em_scalef_x ft v = em_scalef_y ft v) /\ (forall v, em_scale_x ft v = em_scale_y ft v)
+  /\ (forall v, em_fscale_x ft v = em_fscale_y ft v)
+  /\ glyph_h_advance fc ft g = em_scalef (fc_hadv fc g) s u
+  /\ (fc_vmetrics fc = true -> glyph_v_advance fc ft g = em_scalef (fc_vadv fc g) s u)
+  /\ (forall d e, (if hb_is_horizontal d then fc_hext fc else fc_vext fc) = (e, true) ->
+        extents_for_direction fc ft d = mkF3 (f32_of_int (em_scalef (x_asc e) s u)) (f32_of_int (em_scalef (x_desc e) s u))
+                                             (f32_of_int (em_scalef (x_gap e) s u))).
+Proof. exact same_scale_lemma. Qed.
+Print Assumptions same_scale_for_advances_and_extents.
+
+(* ExtentsForDirection, every font (XScale and YScale may differ) and direction value: horizontal directions take the
+   face's horizontal extents under YScale, all other values the vertical extents under XScale; without face extents
+   0.8 em / -0.2 em resp. +-0.5 em computed in float32 (Proofs.HbFont.fext_spec) *)
+Theorem extents_for_direction_scaled : forall fc ft d, extents_for_direction fc ft d = fext_spec fc ft d.
+Proof. exact extents_for_direction_spec. Qed.
+Print Assumptions extents_for_direction_scaled.
+
+(* END TO END: the conversion part of Shape with harfbuzz.Font.ExtentsForDirection replaced by its model (hb_fext: the
+   font NewFont(face) with XScale = YScale = the scale Shape sets).  For every engine and glyph extents function, every
+   face whose extents for the axis of the run are the integers a, d, g, every size and direction byte inside the
+   exactness conditions, with scaled values below 2^24:  LineBounds = (a, d, g) * font_scale(Size) / upem, rounded
+   half away from zero, i.e. the face's extents under the very scale function and scale of the glyph advances. *)
+Theorem shape_conv_line_bounds_scaled : forall eng ext fc upem size dir run_start run_end a d g,
+  let r := shape_conv eng ext (hb_fext fc upem) size dir run_start run_end in
+  let s := font_scale size in
+  (if is_vertical dir then fc_vext fc else fc_hext fc) = (mkF3 (a * 2 ^ 149) (d * 2 ^ 149) (g * 2 ^ 149), true) ->
+  scale_exact a s upem = true -> scale_exact d s upem = true -> scale_exact g s upem = true ->
+  Z.abs (scale_spec a s upem) < 2 ^ 24 -> Z.abs (scale_spec d s upem) < 2 ^ 24 -> Z.abs (scale_spec g s upem) < 2 ^ 24 ->
+  co_line r = mkBounds (scale_spec a s upem) (scale_spec d s upem) (scale_spec g s upem)
+  /\ co_scale r = s.
+Proof. exact conv_line_scaled_lemma. Qed.
+Print Assumptions shape_conv_line_bounds_scaled.
+
+(* ==== default positioning, harfbuzz/ot_shaper.go (Model/HbPos.v) ================================================ *)
+(* positionDefault, every face, font, direction value, buffer: every glyph has a zero cross-axis advance; every glyph
+   that fallbackSpaces does not touch has the font's advance for the axis (GlyphHAdvance horizontally, getGlyphVAdvance
+   otherwise: emScalef of the hmtx / vmtx advance, see same_scale_for_advances_and_extents) and offsets equal to minus
+   its origin for the axis; one position per glyph *)
+Theorem position_default_exact : forall fc ft dir space_fallback sc infos,
+  Forall2 (default_ok fc ft (hb_is_horizontal dir) space_fallback) infos (position_default fc ft dir space_fallback sc infos)
+  /\ length (position_default fc ft dir space_fallback sc infos) = length infos.
+Proof. exact position_default_lemma. Qed.
+Print Assumptions position_default_exact.
+
+(* adding then subtracting (or subtracting then adding) a glyph's horizontal origin is the identity on int32 points,
+   whatever the origin (int32 wrap included); over a buffer: positionComplex's last loop undoes its first *)
+Theorem origin_add_sub_identity : forall fc ft,
+  (forall g p, pos32 p -> subtract_glyph_h_origin fc ft g (add_glyph_h_origin fc ft g p) = p
+                          /\ add_glyph_h_origin fc ft g (subtract_glyph_h_origin fc ft g p) = p)
+  /\ (forall infos ps, Forall (off32) ps -> length infos = length ps ->
+        map2 (sub_h_origin fc ft) infos (map2 (add_h_origin fc ft) infos ps) = ps).
+Proof. intros fc ft. split; [apply origin_add_sub_lemma|apply map2_sub_add]. Qed.
+Print Assumptions origin_add_sub_identity.
+
+(* position(): for every plan.position (GPOS, kern, kerx, trak) and fallbackMarkPosition that keep zero cross-axis
+   advances zero, every glyph of the result has a zero cross-axis advance; backward directions return the reversal
+   (Info and Pos) of the forward computation.  This discharges, for the default positioning, the hypothesis `the engine
+   returns zero cross-axis advances` of shape_conv_cross_axis_zero. *)
+Theorem position_cross_axis_zero : forall fc ft gpos fbmarks, keeps_cross_zero gpos -> keeps_cross_zero fbmarks ->
+  forall dir sf sc pl fl infos,
+  let ps := position_complex fc ft gpos fbmarks dir pl fl infos (position_default fc ft dir sf sc infos) in
+  all_cross_zero (hb_is_horizontal dir) (snd (position fc ft gpos fbmarks dir sf sc pl fl infos)) = true
+  /\ position fc ft gpos fbmarks dir sf sc pl fl infos = (if hb_is_backward dir then (rev infos, rev ps) else (infos, ps)).
+Proof. intros fc ft gpos fbmarks G F dir sf sc pl fl infos. exact (position_lemma fc ft gpos fbmarks G F dir sf sc pl fl infos). Qed.
+Print Assumptions position_cross_axis_zero.
+
+(* a plan that applies nothing, on a buffer without marks and default ignorables: positionComplex is the identity
+   (the origin shift cancels), so the result of position() is the default positioning *)
+Theorem position_noop_plan_identity : forall fc ft dir pl fl infos ps,
+  Forall (off32) ps -> length infos = length ps ->
+  existsb pi_mark infos = false -> fl_has_di fl = false -> pl_fallback_marks pl = false ->
+  position_complex fc ft (fun _ q => q) (fun _ q => q) dir pl fl infos ps = ps.
+Proof. exact position_complex_identity. Qed.
+Print Assumptions position_noop_plan_identity.
+
+(* ---- non-vacuity ---------------------------------------------------------------------------- *)
+(* Roboto-like numbers: upem 2048, ascender 1900, 16 px (scale 1024): 950; upem 1000, 950 units at 12 px: 729.6 -> 730;
+   the largest values of the stated range; the input on which emScaleX wrapped before the fix *)
+Example scale_example2 :
+  scale_exact 1900 1024 2048 = true /\ em_scalef (1900 * 2 ^ 149) 1024 2048 = 950
+  /\ scale_exact 950 768 1000 = true /\ em_scalef (950 * 2 ^ 149) 768 1000 = 730 /\ em_scalef (- 950 * 2 ^ 149) 768 1000 = - 730
+  /\ in_range 32767 (4096 * 64) 16 = true /\ em_scalef (32767 * 2 ^ 149) (4096 * 64) 16 = 536854528
+  /\ em_scale 20043 165824 2000 = 1661805
+  /\ scale_exact 32767 (4096 * 64) 1000 = false.
+Proof. vm_compute. repeat split; reflexivity. Qed.
+
+(* outside scale_exact the result can differ from the exact rounding (binary32 double rounding): 2489 units at
+   826 px with upem 1000 is 131578.4998..., the binary32 quotient is 131578.5 and math.Round gives 131579.  This happens
+   only for scaled values above 2^17 (2048 px) and stays inside the error bound; HarfBuzz computes in float as well. *)
+Example scale_inexact_example :
+  let v := 2489 in let s := 826 * 64 in let u := 1000 in
+  in_range v s u = true /\ scale_exact v s u = false
+  /\ em_scalef (v * 2 ^ 149) s u = 131579 /\ scale_spec v s u = 131578
+  /\ scale_err_ok v s u (em_scalef (v * 2 ^ 149) s u) = true.
+Proof. vm_compute. repeat split; reflexivity. Qed.
+
+Definition ex_face : face :=
+  mkFace (mkF3 (1900 * 2 ^ 149) (- 500 * 2 ^ 149) 0, true) (mkF3 0 0 0, false) false
+         (fun g => (600 + g) * 2 ^ 149) (fun _ => 0) (fun _ => (0, 0, true)) (fun g => (300, 1900, true)) (fun _ => None).
+Example font_example :
+  let ft := set_scale (new_font 2048) 1024 in
+  extents_for_direction ex_face ft 4 = mkF3 (950 * 2 ^ 149) (- 250 * 2 ^ 149) 0
+  /\ x_asc (extents_for_direction ex_face ft 6) = 512 * 2 ^ 149 /\ x_desc (extents_for_direction ex_face ft 6) = - 512 * 2 ^ 149
+  /\ glyph_h_advance ex_face ft 8 = 304 /\ glyph_v_advance ex_face ft 8 = - 1200
+  /\ glyph_v_origin ex_face ft 8 = (150, 950)
+  /\ position_default ex_face ft 4 false (mkSC 0 [] None) [mkPI 8 false false false 0; mkPI 40 true false false 0]
+     = [mkPP 304 0 0 0; mkPP 320 0 0 0]
+  /\ position_default ex_face ft 6 false (mkSC 0 [] None) [mkPI 8 false false false 0]
+     = [mkPP 0 (- 1200) (- 150) (- 950)]
+  /\ position ex_face ft (fun _ q => q) (fun _ q => q) 5 false (mkSC 0 [] None) (mkPlan true 2 true false) (mkFl false false false)
+       [mkPI 8 false false false 0; mkPI 40 true false false 0]
+     = ([mkPI 40 true false false 0; mkPI 8 false false false 0], [mkPP 0 0 0 0; mkPP 304 0 0 0]).
+Proof. vm_compute. repeat split; reflexivity. Qed.
+
+Example conv_scaled_example :
+  let r := shape_conv ex_eng ex_ext (hb_fext ex_face 2048) 1024 0 0 3 in
+  co_line r = mkBounds 950 (- 250) 0 /\ co_scale r = 1024.
+Proof. vm_compute. split; reflexivity. Qed.
